@@ -73,6 +73,34 @@ func runGate(g *gateSpec, addr string, hb *lib.Heartbeat, wait time.Duration) (d
 		return 0, false, time.Now(), ""
 	}
 	defer st.Close()
+	return runGateOn(st, g, wait)
+}
+
+// runGateSeq drives several gated (chunked) streams one after the other on ONE client connection:
+// what the proxy remembers from an earlier response must not change how a later one is forwarded.
+func runGateSeq(gs []*gateSpec, addr string, wait time.Duration) (stream, delivered int, done bool, t0 time.Time, received string) {
+	st, err := lib.Dial(addr)
+	if err != nil {
+		return 0, 0, false, time.Now(), ""
+	}
+	defer st.Close()
+	for k, g := range gs {
+		d, ok, t, recv := runGateOn(st, g, wait)
+		if !ok {
+			return k, d, false, t, recv
+		}
+		// the end of this response (last chunk) before the next request is written
+		t0 = time.Now()
+		for !bytes.HasSuffix(st.All.Bytes(), []byte("0\r\n\r\n")) {
+			if _, err := st.ReadN(len(st.Buffered())+1, time.Until(t0.Add(wait))); err != nil {
+				return k, d, false, t0, lib.Trunc(st.All.String(), 600)
+			}
+		}
+	}
+	return len(gs), 0, true, t0, ""
+}
+
+func runGateOn(st *lib.Stream, g *gateSpec, wait time.Duration) (delivered int, done bool, t0 time.Time, received string) {
 	fmt.Fprintf(st.C, "GET /gate/%s HTTP/1.1\r\nHost: %s\r\nX-Vid: %s\r\n\r\n", g.id, originHost, g.id)
 	for i := range g.events {
 		marker := []byte(fmt.Sprintf("EVENT-%d-%s;", i, g.id))
@@ -168,4 +196,53 @@ func gates(run *lib.Run, hb *lib.Heartbeat, root *lib.RNG) {
 		}(i)
 	}
 	wg.Wait()
+	// ---- sequences of gated streams on one keep-alive connection ----
+	orders := [][]string{{"sse-chunked", "chunked"}, {"chunked", "sse-chunked", "chunked"}, {"sse-chunked", "sse-chunked", "chunked", "sse-chunked"}, {"chunked", "chunked"}}
+	nSeq := run.N(8, 120)
+	for i := 0; i < nSeq; i++ {
+		idx := base + 10_000 + i
+		if !run.Want(idx) {
+			continue
+		}
+		r := root.Sub(uint64(idx))
+		order := orders[i%len(orders)]
+		mkSeq := func(tag string) []*gateSpec {
+			var gs []*gateSpec
+			for k, kind := range order {
+				id := fmt.Sprintf("q%d%s%d", i, tag, k)
+				g := &gateSpec{id: id, kind: kind, gate: make(chan int, 1)}
+				for e, ne := 0, r.Range(2, 4); e < ne; e++ {
+					marker := fmt.Sprintf("EVENT-%d-%s;", e, id)
+					if kind == "chunked" {
+						// short chunks without blank lines: nothing but a flush per chunk gets them out
+						g.events = append(g.events, []byte(marker+r.Str(r.Range(0, 200), "abcdefghij")))
+					} else {
+						g.events = append(g.events, []byte("data: "+marker+"\n\n"))
+					}
+				}
+				gateSpecs.Store(id, g)
+				gs = append(gs, g)
+			}
+			return gs
+		}
+		gc, gp := mkSeq("c"), mkSeq("p")
+		run.Case(idx, "gate-sequence|"+strings.Join(order, ">"), map[string]any{"order": order})
+		if _, _, okc, _, _ := runGateSeq(gc, origin.Addr, 10*time.Second); !okc {
+			run.Inconclusive("gate sequence control path did not complete")
+		} else {
+			k, d, okp, t0, recv := runGateSeq(gp, p.Addr, 10*time.Second)
+			switch {
+			case okp:
+				run.Count("gate_sequences_completed", 1)
+			case !hb.Healthy(t0):
+				run.Inconclusive("gate sequence stalled with unhealthy heartbeat")
+			default:
+				run.Violation("not-incremental:sequence:"+strings.Join(order[:k+1], ">"), fmt.Sprintf("on one keep-alive connection, response %d (%s) after %v: event %d was sent by the origin but not delivered to the client within 10 s", k+1, order[k], order[:k], d), idx,
+					map[string]any{"order": order, "client_received": recv})
+			}
+		}
+		for _, g := range append(gc, gp...) {
+			gateSpecs.Delete(g.id)
+		}
+	}
 }
